@@ -18,7 +18,7 @@ def dist_cross(cases, outs, cfgs):
 
 
 def run(ctx):
-    sqlprop.run_sql_property(ctx, corpus=['scan', 'agg', 'order', 'cjoins'], seeded=[], cfgs=sqlprop.DIST, quick_n=120, thorough_n=1000,
+    sqlprop.run_sql_property(ctx, corpus=['scan', 'agg', 'order', 'cjoins'], seeded=[], cfgs=sqlprop.DIST, quick_n=60, thorough_n=1000,
         envs=None, cross=dist_cross,
         rule='Each corpus case is executed through execute_any_distributed with an in-process fragment transport (execute_fragment on a second context over the same Parquet files, Arrow IPC round trip) for clusters of 1,2,3,4,8 participants over several row-group layouts (idle nodes and empty shards arise); the answer must be allowed by SqlSem (order where ORDER BY fixes it) or a refusal.')
 
